@@ -14,7 +14,8 @@
                 case <n> ctasksx …                        (outside the model: every line answered `-`)
   ops:          ct call | ct subscribe | ct batch <n> | ct notify | ct drop <ticket> | ct unsub <ticket> | ct deliver <hex>
                 | ct fault send_err <k> | ct fault recv_err <k> | ct fault peer_close | ct fault garbage <hex>
-                | ct gate send|close|recv|all open|shut | ct probe | ct end
+                | ct gate send|close|recv|all open|shut | ct probe | ct end | ct regnotif <hex> | ct ondisc | ct pong
+                | ct fault close_err | ct dropclient | ct advance <ms> | ct fault ping_err <k>   (the last three: `-` from there on)
                 | ct deliverbytes <hex> | ct deepdeliver <depth>     (outside the text model: `-` from there on)
                 rt <scenario> <ms>                         (real-time test of the harness: answered `rt`)
   output:       <events> | conn=<0|1> disc=<pending|E:…> tc=<0|1>
@@ -79,6 +80,7 @@ def frontEnabled (b : ClientTasks.State) : Nat → Nat → Option ClientTasks.Op
     if senderDropped b i then some (.frontDrop i) else
     match b.fronts[i]? with
     | some .disconnected => if b.frontClosed then some (.frontReadError i) else frontEnabled b (i + 1) fuel
+    | some .watching => if b.frontClosed then some (.frontReadError i) else frontEnabled b (i + 1) fuel
     | some (.blocked _) =>
       if b.frontClosed || b.queue.length < b.fcap then some (.frontRetry i) else frontEnabled b (i + 1) fuel
     | _ => frontEnabled b (i + 1) fuel
@@ -98,7 +100,12 @@ def stepSend (cs : CtSt) : Option CtSt :=
       let r := Client.step cs.a (.sendTask 0)
       let ws := wiresOf r.effs
       let cs1 := bstep { cs with a := r.st } .sendTake
-      if ws.isEmpty then some (bstep cs1 .sendOk) else some { cs1 with held := ws }
+      -- what the send task answers itself (`subscribe_to_method`, a refused duplicate id)
+      let cs2 := (completionsOf r.effs).foldl (fun acc (aop, str) =>
+        match ticketOfAOp acc aop with
+        | some t => bstep { acc with answers := acc.answers ++ [(t, str)] } (.taskAnswers t)
+        | none => acc) cs1
+      if ws.isEmpty then some (bstep cs2 .sendOk) else some { cs2 with held := ws }
   | .sending =>
     if !cs.sendGate then none else
     (match cs.sendFail with
@@ -233,7 +240,7 @@ def streamTickets (cs : CtSt) : List Nat :=
   (List.range cs.tickets.length).filter (fun t =>
     !cs.gone.contains t &&
     match cs.answers.find? (·.1 == t) with
-    | some (_, s) => s.startsWith "sub:"
+    | some (_, s) => s.startsWith "sub:" || s == "reg"
     | none => false)
 
 /-- the application lets go of the stream of ticket `t`: `Drop` (`unsub = false`) or
@@ -255,15 +262,41 @@ def consumerOp (cs : CtSt) (t : Nat) (unsub : Bool) : CtSt × String :=
                          draining := if unsub then cs.draining ++ [c] else cs.draining }
     finishOp (if queued then bstep cs1 .consumerMsg else cs1) before
 
+/-- `end` polls every stream the application still holds until it yields nothing more -/
+def consumeBuffered : Nat → Client.St → ChanId → Client.St
+  | 0, st, _ => st
+  | fuel + 1, st, c =>
+    let r := Client.step st (.next c)
+    match r.out with
+    | .item _ => consumeBuffered fuel r.st c
+    | _ => r.st
+
 def unresolvedTickets (cs : CtSt) : List Nat :=
   (List.range cs.b.fronts.length).filter (fun i =>
     match cs.b.fronts[i]? with
+    | some .watching => false
     | some p => !isResolved p
     | none => false)
+
+def watchingTickets (cs : CtSt) : List Nat :=
+  (List.range cs.b.fronts.length).filter (fun i => cs.b.fronts[i]? == some FPhase.watching)
+
+/-- items still buffered in the stream of ticket `t` -/
+def bufferedOf (cs : CtSt) (t : Nat) : Nat :=
+  match cs.tickets[t]?.join.bind (chanOfOp cs.a) with
+  | some c => (cs.a.core.chans[c]?.map (·.buf.length)).getD 0
+  | none => 0
 
 def ctVerb (cs : CtSt) (ws : List String) : Option (CtSt × String) :=
   match ws with
   | ["case", _, "ctasks", kind, cap] =>
+    some (match cap.toNat? with
+      | some c =>
+        if (kind != "num" && kind != "str") || c == 0 then ({}, "bad-op") else
+        ({ active := true, a := Client.St.init c (kind == "str"), b := ClientTasks.init 64 }, "case")
+      | none => ({}, "bad-op"))
+  | ["case", _, "ctasks", kind, cap, _opts] =>
+    -- options (request timeout, idle pings) do not change what the compared histories show
     some (match cap.toNat? with
       | some c =>
         if (kind != "num" && kind != "str") || c == 0 then ({}, "bad-op") else
@@ -291,6 +324,15 @@ def ctVerb (cs : CtSt) (ws : List String) : Option (CtSt × String) :=
         (match k.toNat? with
          | some t => consumerOp cs t true
          | none => (cs, "bad-op"))
+      | "regnotif", [m] =>
+        (match unhexText m with
+         | some meth => frontOp cs (.newRegister meth) true
+         | none => (cs, "bad-op"))
+      | "ondisc", [] =>
+        let before := cs.b.fronts
+        finishOp (bstep { cs with tickets := cs.tickets ++ [none] } .frontWatch) before
+      | "pong", [] => finishOp cs cs.b.fronts
+      | "fault", ["close_err"] => finishOp cs cs.b.fronts
       | "notify", [] => frontOp cs (.newNotification (encodeNotif { method := tM, params := none })) false
       | "deliver", [h] =>
         (match unhexText h with
@@ -324,10 +366,30 @@ def ctVerb (cs : CtSt) (ws : List String) : Option (CtSt × String) :=
         let c2 := settleCt (settleFuel c1) { c1 with closeGate := true }
         let c3 := settleCt (settleFuel c2) { c2 with recvGate := true }
         let un := unresolvedTickets c3
+        let wp := watchingTickets c3
         let extra := [s!"unres={if un.isEmpty then "-" else String.intercalate "," (un.map toString)}"] ++
-          (streamTickets c3).map (fun t => s!"s{t}={if streamEnded c3 t then "end" else "open"}")
-        ({ c3 with wiresOut := [] }, eventsRepr c3 before extra ++ tailRepr c3)
-      | "deliverbytes", [_] => ({ cs with skip := true }, "-")
+          (if wp.isEmpty then [] else [s!"wp={String.intercalate "," (wp.map toString)}"]) ++
+          (streamTickets c3).map (fun t =>
+            let st := if streamEnded c3 t then "end" else "open"
+            if c3.unsubbed.contains t then s!"s{t}={st}" else s!"s{t}={st}/{bufferedOf c3 t}")
+        let a' := (streamTickets c3).foldl (fun acc t =>
+          if c3.unsubbed.contains t then acc else
+          match c3.tickets[t]?.join.bind (chanOfOp acc) with
+          | some c => consumeBuffered (bufferedOf c3 t + 1) acc c
+          | none => acc) c3.a
+        ({ c3 with wiresOut := [], a := a' }, eventsRepr c3 before extra ++ tailRepr c3)
+      | "deliverbytes", [h] =>
+        -- a binary frame goes through the same handler as text
+        (match unhexText h with
+         | some t => finishOp (if cs.peerClosed then cs else { cs with inbox := cs.inbox ++ [.text t] }) cs.b.fronts
+         | none => ({ cs with skip := true }, "-"))
+      | "fault", ["garbageb", h] =>
+        (match unhexText h with
+         | some t => finishOp (if cs.peerClosed then cs else { cs with inbox := cs.inbox ++ [.text t] }) cs.b.fronts
+         | none => ({ cs with skip := true }, "-"))
+      | "dropclient", [] => ({ cs with skip := true }, "-")
+      | "advance", [_] => ({ cs with skip := true }, "-")
+      | "fault", ["ping_err", _] => ({ cs with skip := true }, "-")
       | "deepdeliver", [_] => ({ cs with skip := true }, "-")
       | _, _ => (cs, "bad-op"))
   | _ => none
